@@ -20,6 +20,27 @@ PROPS = {
   'assumptions': ['BytesPerPixel in {1,2,3,4,6,8} and row length a multiple of it (guaranteed by common.rs row-length computation; proved for all bpp>0)',
                   'u64 saturating sum in sum_buffer never saturates (rows < 2^57 bytes)'],
  },
+ 'C15': {
+  'level_text': 'Coq theorems (closed under the global context): the interlaced row sequence of the model of Adam7Iterator (pass sizes from the init_pass '
+                'arms regenerated from the source, modelled as exact rationals) equals the specification pass table for every u32 width and height; the '
+                'positions from the regenerated expand tables partition every image (sound, complete, unique, pass = the 8x8 pattern); one call of the '
+                'row-expansion model stores every pixel at its position and changes no other bit for every legal pixel size and stride; expanding all '
+                'rows in any order yields the image independent of the destination. Iterator, expand loops and f64 arithmetic are tied by differential '
+                'execution (hooks and public API) on every run.',
+  'level_note': 'Trusted: Coq kernel; translator rs2v.py (init_pass arms, expand tables, sub-byte masks, store expression); hand model of the loops of adam7.rs; '
+                'IEEE-754 exactness of u32->f64, subtraction of a small constant, division by a power of two and ceil (closed on the implementation side by the '
+                'harness sweep: all w<=4096 and boundaries quick, all 2^32 thorough); extraction + OCaml driver; harness.',
+  'gen_items': ['Adam7Iterator::init_pass', 'expand_adam7_bits', 'subbyte_pixels', 'expand_pass.store'],
+  'model_name': 'Model/Adam7.v rows_model, pass_dims, expand_pass_exec; Gen/GenAdam7.v tables',
+  'rule': 'cases = (a) Adam7Iterator rows for all (w,h) <= 24^2 (64^2 thorough) plus random wide/tall sizes vs the specification and (small sizes) vs the extracted model; '
+          '(b) init_pass sizes for every pass over a dense range, every power-of-two neighbourhood up to 2^32-1 and random u32 pairs (thorough: all 2^32 values); '
+          '(c) expand_interlaced_row of all rows in random order into dirty buffers for (w,h) <= 9^2 (20^2) x 9 pixel sizes x strides; (d) interlaced PNGs built by the '
+          'harness and decoded through next_interlaced_row + expand_interlaced_row. Non-trivial: image larger than 1x1; distinct = distinct (kind, size residues mod 8, '
+          'pixel size, stride slack) signatures, hashed.',
+  'trusted_base': ['hand model of Adam7Iterator / expand_pass loops in coq/Model/Adam7.v, tied by differential execution',
+                   'IEEE-754 exactness assumption for init_pass (see level_note), tested by sweep on the compiled code'],
+  'assumptions': ['width, height in [1, 2^32-1]', 'bits per pixel in {1,2,4,8,16,24,32,48,64}', 'stride*8 >= width*bits for the whole-image theorem'],
+ },
 }
 
 NOT_APPLICABLE = {}
